@@ -175,6 +175,19 @@ func NewFullRT(h host.Host, protocolPrefix protocol.ID, options ...Option) (*Ful
 		return nil, err
 	}
 
+	// The config is built by hand rather than from Defaults, so the bucket size
+	// is zero unless the caller sets it. GetClosestPeers walks the table in
+	// steps of bucketSize+2*ipDiversityFilterLimit and needs that to be positive.
+	if dhtcfg.BucketSize == 0 {
+		dhtcfg.BucketSize = amino.DefaultBucketSize
+	}
+	if dhtcfg.BucketSize < 0 {
+		return nil, fmt.Errorf("bucket size must be positive, got %d", dhtcfg.BucketSize)
+	}
+	if fullrtcfg.ipDiversityFilterLimit < 0 {
+		return nil, fmt.Errorf("IP diversity filter limit must not be negative, got %d", fullrtcfg.ipDiversityFilterLimit)
+	}
+
 	ms := dhtcfg.MsgSenderBuilder(h, amino.Protocols)
 	protoMessenger, err := dht_pb.NewProtocolMessenger(ms)
 	if err != nil {
